@@ -56,6 +56,14 @@ def bounds(rendered):
             k = px[:px.index("(")]
             return ({"Included": "incl", "Excluded": "excl"}[k], tup(px[px.index("(") + 1:-1]))
         return bound(parts[0]), bound(parts[1])
+    if len(parts) == 1 and head == "RangeFrom":
+        return ("incl", tup(parts[0])), ("unbounded", None)
+    if len(parts) == 1 and head == "RangeTo":
+        return ("unbounded", None), ("excl", tup(parts[0]))
+    if len(parts) == 1 and head == "RangeToInclusive":
+        return ("unbounded", None), ("incl", tup(parts[0]))
+    if head == "RangeFull" or r == "RangeFull":
+        return ("unbounded", None), ("unbounded", None)
     if len(parts) == 2 and head in ("new", "RangeInclusive"):
         return ("incl", tup(parts[0])), ("incl", tup(parts[1]))
     if len(parts) == 2 and head == "Range":
